@@ -306,6 +306,107 @@ impl<T> SegQueue<T> {
     }
 }
 
+// ---- run queues of the scheduler (C01): one abstract event per queue operation
+
+impl<T> Queue<T> {
+    /// `bulk_pop` as one event `q.bulk_pop -> count`; polling an empty queue is not an event
+    /// (idle workers poll all the time)
+    pub fn bulk_pop(&self) -> Vec<T> {
+        if quiet(|| self.q.is_empty()) {
+            return Vec::new();
+        }
+        let mut r = Vec::new();
+        op(self.site, self.a(), "q.bulk_pop", 0, 0, 0, || {
+            r = quiet(|| self.q.bulk_pop()).into_vec();
+            r.len() as u64
+        });
+        r
+    }
+}
+
+/// abstract work-stealing queue: wrappers of `may_queue::spmc::{Local, Steal}` as used by the
+/// scheduler. `q.push`, `q.pop`, `q.steal_into <moved> -> item` are one event each, performed
+/// atomically with the operation; polling an empty queue is not an event.
+pub mod spmc {
+    use super::{item_id, op, quiet, NONE};
+    use std::panic::Location;
+
+    pub struct Local<T: 'static> {
+        q: may_queue::spmc::Local<T>,
+        site: &'static Location<'static>,
+        id: usize,
+    }
+    pub struct Steal<T: 'static> {
+        q: may_queue::spmc::Steal<T>,
+        site: &'static Location<'static>,
+        id: usize,
+    }
+
+    #[track_caller]
+    pub fn local<T: 'static>() -> (Steal<T>, Local<T>) {
+        let site = Location::caller();
+        let (s, l) = may_queue::spmc::local();
+        // identity of the queue shared by its two handles (the queues live for ever)
+        let id = Box::leak(Box::new(0u8)) as *const u8 as usize;
+        (Steal { q: s, site, id }, Local { q: l, site, id })
+    }
+
+    impl<T> Local<T> {
+        pub fn has_tasks(&self) -> bool {
+            quiet(|| self.q.has_tasks())
+        }
+        pub fn push_back(&mut self, t: T) {
+            let id = item_id(&t);
+            op(self.site, self.id, "q.push", id, 0, 0, || {
+                quiet(|| self.q.push_back(t));
+                0
+            });
+        }
+        pub fn pop(&mut self) -> Option<T> {
+            // only the owner pushes: an empty queue stays empty until the owner's next push
+            if !quiet(|| self.q.has_tasks()) {
+                return None;
+            }
+            let mut r = None;
+            op(self.site, self.id, "q.pop", 0, 0, 0, || {
+                r = quiet(|| self.q.pop());
+                r.as_ref().map(item_id).unwrap_or(NONE)
+            });
+            r
+        }
+    }
+
+    impl<T> Steal<T> {
+        pub fn is_empty(&self) -> bool {
+            quiet(|| self.q.is_empty())
+        }
+        pub fn steal_into(&self, dst: &mut Local<T>) -> Option<T> {
+            if quiet(|| self.q.is_empty()) {
+                return None;
+            }
+            let mut r = None;
+            // result of the event: number of tasks taken from the victim (the last one is returned,
+            // the others are re-queued in `dst`); 0 = the victim was empty after all
+            op(self.site, self.id, "q.steal_into", 0, 0, 0, || {
+                let (x, n) = quiet(|| self.q.steal_into_counted(&mut dst.q));
+                r = x;
+                (n + r.is_some() as usize) as u64
+            });
+            r
+        }
+    }
+
+    impl<T> Clone for Steal<T> {
+        fn clone(&self) -> Steal<T> {
+            Steal {
+                q: self.q.clone(),
+                site: self.site,
+                id: self.id,
+            }
+        }
+    }
+}
+
 /// a heap object that groups several hooked fields was created at `[ptr, ptr+size)`
 pub fn born<T>(kind: &'static str, p: *const T) {
     if hooks().is_some() {
